@@ -137,6 +137,13 @@ class SymBuilder:
     def add(self, x, y):
         return self.ctx.binop(__import__("ast").Add(), x, y)
 
+    def iadd(self, x, y):
+        """x += y (the augmented statement: __iadd__ when the class has one, else __add__)"""
+        return self.ctx.binop(__import__("ast").Add(), x, y, inplace=True)
+
+    def isub(self, x, y):
+        return self.ctx.binop(__import__("ast").Sub(), x, y, inplace=True)
+
 
 def native_lookup(qual):
     rel, name = qual.split("::")
@@ -248,6 +255,14 @@ class NativeBuilder:
 
     def add(self, x, y):
         return x + y
+
+    def iadd(self, x, y):
+        x += y
+        return x
+
+    def isub(self, x, y):
+        x -= y
+        return x
 
 
 class AssumptionFailed(Exception):
